@@ -94,7 +94,8 @@ def main():
         rec["confirmed"] = valid
         rec["detected"] = any(v["rc"] == 1 for v in rec["checks"].values())
         if valid:
-            dst = os.path.join("/verif/seeded", "%s-%s" % (pid, label))
+            # MUT_LABEL: name under seeded/ when it differs from the delivery directory (second round: A -> C, B -> D)
+            dst = os.path.join("/verif/seeded", "%s-%s" % (pid, os.environ.get("MUT_LABEL", label)))
             shutil.rmtree(dst, ignore_errors=True)
             os.makedirs(dst)
             shutil.copy(os.path.join(src, "patch.diff"), dst)
